@@ -903,6 +903,30 @@ func (e *Env) evalCall(n *ast.CallExpr) Val {
 		// ifaceStr(x): the string boxed in interface value x
 		tag := e.x.prog.typeTag(types.Typ[types.String])
 		return strVal(App(fmt.Sprintf("ipay_%d_0", tag), SStr, arg(0).T()))
+	case "implements":
+		// implements(x, "I"): the dynamic type of interface value x implements interface type I
+		lit, ok := n.Args[1].(*ast.BasicLit)
+		if !ok {
+			e.fail("implements(x, \"iface\")")
+		}
+		name, _ := strconv.Unquote(lit.Value)
+		t := e.x.prog.resolveGoType(e.pkg, name)
+		if t == nil {
+			e.fail("implements: unknown type %s", name)
+		}
+		return boolVal(App("implements_"+typeKey(t), SBool, App("itype", SInt, arg(0).T())))
+	case "cast":
+		// cast(ref, "T"): view a reference as a value of Go type T (resolved in the package under verification)
+		lit, ok := n.Args[1].(*ast.BasicLit)
+		if !ok {
+			e.fail("cast(x, \"type\")")
+		}
+		name, _ := strconv.Unquote(lit.Value)
+		t := e.x.prog.resolveGoType(e.pkg, name)
+		if t == nil {
+			e.fail("cast: unknown type %s", name)
+		}
+		return Val{Typ: t, C: []*T{arg(0).C[0]}}
 	case "asConn":
 		// asConn(ref): view a reference as *Connection of the package under verification
 		v := arg(0)
